@@ -268,11 +268,14 @@ def root_local(b, operand, depth=0):
     if b.is_arg(l) or depth > 10:
         return l
     ds = b.defs().get(l, [])
+    if b.locals[l].get("inl_param"):
+        # the parameter of an inlined helper: stores through it (`(*self).f = ..`) do not redefine it
+        ds = [d for d in ds if not (d[3]["pl" if d[0] == "stmt" else "dest"]["p"][:1] == ["*"])]
     if len(ds) == 1 and ds[0][0] == "stmt" and ds[0][3]["k"] == "assign" and not ds[0][3]["pl"]["p"]:
         rv = ds[0][3]["rv"]
         if rv["k"] in ("ref", "rawptr"):
             return root_local(b, {"k": "copy", "pl": rv["pl"]}, depth + 1) if not rv["pl"]["p"] or rv["pl"]["p"] == ["*"] else rv["pl"]["l"]
-        if rv["k"] == "use" and rv["op"]["k"] in ("copy", "move") and not b.local_name(l):
+        if rv["k"] == "use" and rv["op"]["k"] in ("copy", "move") and (not b.local_name(l) or b.locals[l].get("inl_param")):
             return root_local(b, rv["op"], depth + 1)
     return l
 
